@@ -951,4 +951,390 @@ theorem constrain_good' {t : Triple} (c : ContractF t) {S0 : Seq} (hs : StartOK 
     have hj := (wc_lt c hjw).1
     exact (inv.good j hj (inv.done j hj hj)).2.2 w hjw
 
+/-! ### 6. the search loop -/
+
+/-- a legal outcome of the two random draws of `mutate`, in specification terms -/
+def ValidEv (t : Triple) (e : Event) : Prop :=
+  e.idx ∈ freeLocs t ∧ memCode e.base (t.stAt e.idx) = true
+
+theorem freeF_of_mem_freeLocs {t : Triple} {i : Nat} (h : i ∈ freeLocs t) : FreeF t i :=
+  freeF_of_isClassRep (mem_freeLocs.1 h).2.1
+
+theorem validEv_of_validEvent {t : Triple} (c : ContractF t) {e : Event} (h : validEvent t e = true) :
+    ValidEv t e := by
+  unfold validEvent at h
+  simp only [Bool.and_eq_true, List.contains_iff_mem] at h
+  refine ⟨h.1, ?_⟩
+  have f := freeF_of_mem_freeLocs h.1
+  exact choices_memCode (c.code e.idx e.idx f.1) h.2
+
+theorem step_good {t : Triple} (c : ContractF t) {s : State} (g : Good t s.S) {e : Event}
+    (hv : ValidEv t e) : Good t (step t s e).S := by
+  unfold step
+  split
+  · exact mutate_good c g (freeF_of_mem_freeLocs hv.1) hv.2
+  · exact g
+
+theorem run_good {t : Triple} (c : ContractF t) (p : Params) (nf : Nat) :
+    ∀ (es : List Event) (s : State), Good t s.S → (∀ e ∈ es, ValidEv t e) → Good t (run t p nf s es).S := by
+  intro es
+  induction es with
+  | nil => intro s g _; exact g
+  | cons e es ih =>
+    intro s g hv
+    simp only [run]
+    split
+    · exact ih _ (step_good c g (hv e List.mem_cons_self)) (fun e' he' => hv e' (List.mem_cons_of_mem _ he'))
+    · exact g
+
+theorem runList_good {t : Triple} (c : ContractF t) (p : Params) (nf : Nat) :
+    ∀ (es : List Event) (s : State), Good t s.S → (∀ e ∈ es, ValidEv t e) →
+      ∀ s' ∈ runList t p nf s es, Good t s'.S := by
+  intro es
+  induction es with
+  | nil => intro s _ _ s' h; simp [runList] at h
+  | cons e es ih =>
+    intro s g hv s' h
+    simp only [runList] at h
+    split at h
+    · have g' := step_good c g (hv e List.mem_cons_self)
+      rcases List.mem_cons.1 h with h | h
+      · rw [h]; exact g'
+      · exact ih _ g' (fun e' he' => hv e' (List.mem_cons_of_mem _ he')) s' h
+    · simp at h
+
+/-- a `Good` sequence is an admissible start for `constrain` -/
+theorem startOK_of_good {t : Triple} (c : Contract t) {S : Seq} (g : Good t S) : StartOK t S := by
+  refine ⟨g.1, fun i hi => ⟨fun h => (g.2 i hi).1.2 h, fun h => ?_⟩⟩
+  apply (g.2 i hi).2.1
+  intro hb
+  have := (c.2.2.2.2 i hi).1.1.1 hb
+  unfold isClassRep at h
+  simp only [Bool.and_eq_true, beq_iff_eq] at h
+  omega
+
+theorem nimp_bool {a b : Bool} (h : a = true → b = false) : (!(a && b)) = true := by
+  cases a <;> cases b <;> simp_all
+
+/-- the program's own acceptance test passes on every `Good` sequence -/
+theorem testConsistency_of_good {t : Triple} (c : Contract t) {S : Seq} (g : Good t S) :
+    testConsistency t S = true := by
+  obtain ⟨_, _, _, _, hall⟩ := c
+  have ok1 : (List.range t.N).all (fun i =>
+      !(t.wcAt i != -1 && t.wcAt (t.wcIx i) != (t.eqAt i : Int)) &&
+      !(t.eqAt i != 0 && t.eqAt (t.eqAt i - 1) != t.eqAt i)) = true := by
+    rw [List.all_eq_true]
+    intro i hi
+    have hi := List.mem_range.1 hi
+    obtain ⟨_, he, hw⟩ := hall i hi
+    rw [Bool.and_eq_true]
+    constructor
+    · apply nimp_bool; intro h
+      have := (hw (by simpa using h)).2.2.2.2.1
+      simp [this]
+    · apply nimp_bool; intro h
+      have := (he (by simpa using h)).2.1
+      simp [this]
+  unfold testConsistency
+  simp only [ok1, Bool.not_true, Bool.false_eq_true, if_false, Bool.and_eq_true, List.all_eq_true]
+  constructor
+  · intro i hi
+    have hi := List.mem_range.1 hi
+    obtain ⟨g1, g2, g3, g4⟩ := g.2 i hi
+    refine ⟨⟨?_, ?_⟩, ?_⟩
+    · apply nimp_bool; intro h
+      have hne : sAt S i ≠ ' ' := by simpa using h
+      have hst : t.stAt i ≠ ' ' := fun e => hne (g1.2 e)
+      simp [memCode_hasSub2 (g2 hst)]
+    · apply nimp_bool; intro h
+      have := g4 (by simpa using h)
+      simp [← this]
+    · apply nimp_bool; intro h
+      have := g3 (by simpa using h)
+      simp [← this]
+  · intro i hi
+    have hi := List.mem_range.1 hi
+    obtain ⟨_, he, hw⟩ := hall i hi
+    constructor
+    · apply nimp_bool; intro h
+      have := (hw (by simpa using h)).2.2.2.2.2
+      simp [← this]
+    · apply nimp_bool; intro h
+      have := (he (by simpa using h)).2.2.2
+      simp [this]
+
+/-! #### iteration bounds -/
+
+/-- number of strictly improving events -/
+def improvements (es : List Event) : Nat := (es.filter (fun e => decide (e.cmp < 0))).length
+
+theorem running_bored {bmax : Nat} (hb : 0 < bmax) {nf : Nat} {s : State}
+    (h : running ⟨bmax, 0⟩ nf s = true) : s.bored < bmax := by
+  unfold running at h
+  simp only [Bool.and_eq_true, Bool.or_eq_true, beq_iff_eq, decide_eq_true_eq] at h
+  rcases h.1.2 with h | h
+  · omega
+  · exact h
+
+theorem step_bored (t : Triple) (s : State) (e : Event) :
+    (step t s e).bored = if e.cmp < 0 then 0 else s.bored + 1 := by
+  unfold step
+  by_cases h : e.cmp ≤ 0
+  · rw [if_pos h]
+  · rw [if_neg h, if_neg (by omega)]
+
+/-- counting half of the termination argument: every iteration either is a strict improvement or
+    increments `bored`, and the loop runs only while `bored < bmax` -/
+theorem runList_length_le (t : Triple) {bmax : Nat} (hb : 0 < bmax) (nf : Nat) :
+    ∀ (es : List Event) (s : State), s.bored ≤ bmax →
+      (runList t ⟨bmax, 0⟩ nf s es).length + s.bored ≤ bmax * (improvements es + 1) := by
+  intro es
+  induction es with
+  | nil =>
+    intro s h
+    simp [runList, improvements]; exact h
+  | cons e es ih =>
+    intro s h
+    simp only [runList]
+    by_cases hr : running ⟨bmax, 0⟩ nf s = true
+    · rw [if_pos hr]
+      have hlt := running_bored hb hr
+      have hsb := step_bored t s e
+      simp only [List.length_cons]
+      by_cases hc : e.cmp < 0
+      · rw [if_pos hc] at hsb
+        have := ih (step t s e) (by omega)
+        have hk : improvements (e :: es) = improvements es + 1 := by
+          simp [improvements, hc]
+        rw [hk, Nat.mul_succ]
+        omega
+      · rw [if_neg hc] at hsb
+        have := ih (step t s e) (by omega)
+        have hk : improvements (e :: es) = improvements es := by
+          simp [improvements, hc]
+        rw [hk]
+        omega
+    · rw [if_neg hr]
+      have : bmax ≤ bmax * (improvements (e :: es) + 1) := Nat.le_mul_of_pos_right _ (by omega)
+      simp only [List.length_nil]
+      omega
+
+/-- with `imax > 0` the loop makes at most `imax` iterations -/
+theorem runList_length_le_imax (t : Triple) (p : Params) (hi : 0 < p.imax) (nf : Nat) :
+    ∀ (es : List Event) (s : State), s.steps ≤ p.imax →
+      (runList t p nf s es).length + s.steps ≤ p.imax := by
+  intro es
+  induction es with
+  | nil => intro s h; simpa [runList] using h
+  | cons e es ih =>
+    intro s h
+    simp only [runList]
+    by_cases hr : running p nf s = true
+    · rw [if_pos hr]
+      have hlt : s.steps < p.imax := by
+        unfold running at hr
+        simp only [Bool.and_eq_true, Bool.or_eq_true, beq_iff_eq, decide_eq_true_eq] at hr
+        rcases hr.1.1 with h | h
+        · omega
+        · exact h
+      have hst : (step t s e).steps = s.steps + 1 := by unfold step; split <;> rfl
+      have := ih (step t s e) (by omega)
+      simp only [List.length_cons]
+      omega
+    · rw [if_neg hr]; simpa using h
+
+/-- the score comparison reported in an event agrees with a score function `score` into a strictly
+    ordered set: `cmp < 0` means strictly better, `cmp = 0` means equal.  Only events that are
+    actually executed are constrained. -/
+def Scored {α : Type} (lt : α → α → Prop) (score : Seq → α) (t : Triple) (p : Params) (nf : Nat) :
+    State → List Event → Prop
+  | _, [] => True
+  | s, e :: es =>
+    running p nf s = true →
+      ((e.cmp < 0 → lt (score (mutate t s.S e.idx e.base)) (score s.S)) ∧
+       (e.cmp = 0 → score (mutate t s.S e.idx e.base) = score s.S)) ∧
+      Scored lt score t p nf (step t s e) es
+
+theorem runList_bound_chain {α : Type} (lt : α → α → Prop) (irr : ∀ a, ¬ lt a a)
+    (tr : ∀ a b c, lt a b → lt b c → lt a c) (score : Seq → α) (space : List α)
+    {t : Triple} (c : ContractF t) (hsp : ∀ S, Good t S → score S ∈ space)
+    {bmax : Nat} (hb : 0 < bmax) (nf : Nat) :
+    ∀ (es : List Event) (s : State) (chain : List α), Good t s.S → s.bored ≤ bmax →
+      (∀ e ∈ es, ValidEv t e) → Scored lt score t ⟨bmax, 0⟩ nf s es →
+      chain.Nodup → (∀ x ∈ chain, lt (score s.S) x) → (∀ x ∈ chain, x ∈ space) →
+      (runList t ⟨bmax, 0⟩ nf s es).length + s.bored ≤ bmax * (space.length - chain.length) := by
+  intro es
+  induction es with
+  | nil =>
+    intro s chain g hbo _ _ hnd hlt hsub
+    have hlen : (score s.S :: chain).length ≤ space.length := by
+      apply List.Nodup.length_le_of_subset
+      · rw [List.nodup_cons]
+        exact ⟨fun hm => irr _ (hlt _ hm), hnd⟩
+      · intro x hx
+        rcases List.mem_cons.1 hx with e | e
+        · rw [e]; exact hsp _ g
+        · exact hsub x e
+    simp only [List.length_cons] at hlen
+    have : bmax ≤ bmax * (space.length - chain.length) := Nat.le_mul_of_pos_right _ (by omega)
+    simp only [runList, List.length_nil]
+    omega
+  | cons e es ih =>
+    intro s chain g hbo hv hsc hnd hlt hsub
+    have hlen : (score s.S :: chain).length ≤ space.length := by
+      apply List.Nodup.length_le_of_subset
+      · rw [List.nodup_cons]
+        exact ⟨fun hm => irr _ (hlt _ hm), hnd⟩
+      · intro x hx
+        rcases List.mem_cons.1 hx with e | e
+        · rw [e]; exact hsp _ g
+        · exact hsub x e
+    simp only [List.length_cons] at hlen
+    simp only [runList]
+    by_cases hr : running ⟨bmax, 0⟩ nf s = true
+    · rw [if_pos hr]
+      have hbl := running_bored hb hr
+      have hsb := step_bored t s e
+      obtain ⟨⟨hneg, hzero⟩, hsc'⟩ := hsc hr
+      have hve := hv e List.mem_cons_self
+      have hv' : ∀ e' ∈ es, ValidEv t e' := fun e' he' => hv e' (List.mem_cons_of_mem _ he')
+      have g' := step_good c g hve
+      simp only [List.length_cons]
+      by_cases hc : e.cmp < 0
+      · rw [if_pos hc] at hsb
+        have hS : (step t s e).S = mutate t s.S e.idx e.base := by
+          unfold step; rw [if_pos (by omega)]
+        have hl := hneg hc
+        have := ih (step t s e) (score s.S :: chain) g' (by omega) hv' hsc'
+          (by rw [List.nodup_cons]; exact ⟨fun hm => irr _ (hlt _ hm), hnd⟩)
+          (by
+            intro x hx
+            rw [hS]
+            rcases List.mem_cons.1 hx with e' | e'
+            · rw [e']; exact hl
+            · exact tr _ _ _ hl (hlt x e'))
+          (by
+            intro x hx
+            rcases List.mem_cons.1 hx with e' | e'
+            · rw [e']; exact hsp _ g
+            · exact hsub x e')
+        simp only [List.length_cons] at this
+        have e1 : space.length - chain.length = (space.length - (chain.length + 1)) + 1 := by omega
+        rw [e1, Nat.mul_succ]
+        omega
+      · rw [if_neg hc] at hsb
+        have hsame : score (step t s e).S = score s.S := by
+          unfold step
+          by_cases h0 : e.cmp ≤ 0
+          · rw [if_pos h0]; exact hzero (by omega)
+          · rw [if_neg h0]
+        have := ih (step t s e) chain g' (by omega) hv' hsc' hnd
+          (by intro x hx; rw [hsame]; exact hlt x hx) hsub
+        omega
+    · rw [if_neg hr]
+      have : bmax ≤ bmax * (space.length - chain.length) := Nat.le_mul_of_pos_right _ (by omega)
+      simp only [List.length_nil]
+      omega
+
+/-! #### the sequence space is finite -/
+
+def alphabet : List Char := [' ', 'A', 'C', 'G', 'T']
+
+/-- all sequences of length `n` over blank and the four bases -/
+def seqSpace : Nat → List Seq
+  | 0 => [[]]
+  | n + 1 => (seqSpace n).map (' ' :: ·) ++ (seqSpace n).map ('A' :: ·) ++ (seqSpace n).map ('C' :: ·) ++
+      (seqSpace n).map ('G' :: ·) ++ (seqSpace n).map ('T' :: ·)
+
+theorem length_seqSpace (n : Nat) : (seqSpace n).length = 5 ^ n := by
+  induction n with
+  | zero => rfl
+  | succ n ih =>
+    simp only [seqSpace, List.length_append, List.length_map, ih, Nat.pow_succ]
+    omega
+
+theorem mem_seqSpace : ∀ (S : Seq), (∀ c ∈ S, c ∈ alphabet) → S ∈ seqSpace S.length := by
+  intro S
+  induction S with
+  | nil => intro _; simp [seqSpace]
+  | cons a S ih =>
+    intro h
+    have hS := ih (fun c hc => h c (List.mem_cons_of_mem _ hc))
+    have ha := h a List.mem_cons_self
+    simp only [alphabet, List.mem_cons, List.not_mem_nil, or_false] at ha
+    simp only [List.length_cons, seqSpace, List.mem_append, List.mem_map]
+    rcases ha with e | e | e | e | e <;> subst e
+    · exact Or.inl (Or.inl (Or.inl (Or.inl ⟨S, hS, rfl⟩)))
+    · exact Or.inl (Or.inl (Or.inl (Or.inr ⟨S, hS, rfl⟩)))
+    · exact Or.inl (Or.inl (Or.inr ⟨S, hS, rfl⟩))
+    · exact Or.inl (Or.inr ⟨S, hS, rfl⟩)
+    · exact Or.inr ⟨S, hS, rfl⟩
+
+theorem good_mem_seqSpace {t : Triple} {S : Seq} (g : Good t S) : S ∈ seqSpace t.N := by
+  rw [← g.1]
+  apply mem_seqSpace
+  intro ch hc
+  obtain ⟨i, hi, e⟩ := List.getElem_of_mem hc
+  have hs : sAt S i = ch := by
+    unfold sAt; rw [List.getD_eq_getElem?_getD, List.getElem?_eq_getElem hi]; exact e
+  obtain ⟨g1, g2, _⟩ := g.2 i (by rw [← g.1]; exact hi)
+  by_cases hb : t.stAt i = ' '
+  · have := g1.2 hb
+    rw [hs] at this; rw [this]; simp [alphabet]
+  · have := memCode_isFixed (g2 hb)
+    rw [hs] at this
+    unfold isFixed at this
+    simp only [Bool.or_eq_true, beq_iff_eq] at this
+    rcases this with ((e | e) | e) | e <;> rw [e] <;> simp [alphabet]
+
+/-- Termination, list form: whatever stream of random choices is supplied, if the reported
+    comparisons come from a score function, the loop with `imax = 0`, `bmax > 0` executes at most
+    `bmax · 5^N` iterations. -/
+theorem runList_bound {α : Type} (lt : α → α → Prop) (irr : ∀ a, ¬ lt a a)
+    (tr : ∀ a b c, lt a b → lt b c → lt a c) (score : Seq → α)
+    {t : Triple} (c : ContractF t) {bmax : Nat} (hb : 0 < bmax) (nf : Nat)
+    (es : List Event) (s : State) (g : Good t s.S) (h0 : s.bored = 0)
+    (hv : ∀ e ∈ es, ValidEv t e) (hsc : Scored lt score t ⟨bmax, 0⟩ nf s es) :
+    (runList t ⟨bmax, 0⟩ nf s es).length ≤ bmax * 5 ^ t.N := by
+  have := runList_bound_chain lt irr tr score ((seqSpace t.N).map score) c
+    (fun S gS => List.mem_map.2 ⟨S, good_mem_seqSpace gS, rfl⟩) hb nf es s [] g (by omega) hv hsc
+    List.nodup_nil (fun _ h => by cases h) (fun _ h => by cases h)
+  simp only [List.length_map, length_seqSpace, List.length_nil, Nat.sub_zero] at this
+  omega
+
+/-- if fewer iterations ran than events were supplied, the loop condition is false at the end -/
+theorem run_stopped (t : Triple) (p : Params) (nf : Nat) :
+    ∀ (es : List Event) (s : State), (runList t p nf s es).length < es.length →
+      running p nf (run t p nf s es) = false := by
+  intro es
+  induction es with
+  | nil => intro s h; simp [runList] at h
+  | cons e es ih =>
+    intro s h
+    simp only [runList, run] at *
+    by_cases hr : running p nf s = true
+    · rw [if_pos hr] at h ⊢
+      simp only [List.length_cons] at h
+      exact ih _ (by omega)
+    · rw [if_neg hr]
+      simpa using hr
+
+theorem runList_length_le_length (t : Triple) (p : Params) (nf : Nat) :
+    ∀ (es : List Event) (s : State), (runList t p nf s es).length ≤ es.length := by
+  intro es
+  induction es with
+  | nil => intro s; simp [runList]
+  | cons e es ih =>
+    intro s
+    simp only [runList]
+    split
+    · simp only [List.length_cons]; have := ih (step t s e); omega
+    · simp
+
+theorem default_bmax (o : Opts) (t : Triple) (h1 : o.bmax = none) (h2 : o.imax = 0) :
+    effectiveBmax o t = o.bmult * nq t + 1 := by
+  unfold effectiveBmax defaultBmax
+  rw [h1, h2]
+  simp
+
 end Pepper.Ssm
